@@ -20,6 +20,7 @@ from __future__ import annotations
 
 import ast
 import builtins
+import json
 import math
 import operator
 
@@ -250,63 +251,233 @@ def evaluate():
     v = getattr(M, "MAX_EXPRESSION_LENGTH", None)
     facts["max_len"] = v if isinstance(v, int) and not isinstance(v, bool) and v >= 0 else None
 
-    # parsed: handler placement in metabolize
-    facts["print_in_try"] = False
-    facts["dispatch_in_try"] = False
-    facts["str_guarded"] = False
+    # --- "no exception escapes metabolize / digest_glucose" -------------------------------------------------------
+    # BEHAVIOURAL (these are the facts the theorems and the driver use): the real entry points are driven with
+    # evaluator stubs that raise every exception class, with a console that refuses to print, and with a value that
+    # refuses to be rendered; the fact holds iff a failure result / a string comes back every time.
+    beh = behavioural_handler_facts(M, facts["notes"])
+    # SYNTACTIC cross-check by call graph (what dominates what): a fact is withdrawn only when the analysis POSITIVELY
+    # finds an evaluator-reaching call / a print / a str() outside every catching try; "not recognised" changes nothing.
+    syn = syntactic_handler_facts(facts["notes"])
+    facts["handler_syntactic"] = syn
+    facts["handler_behavioural"] = beh
+    facts["dispatch_in_try"] = bool(beh.get("dispatch")) and syn.get("dispatch") != "violated"
+    facts["print_in_try"] = bool(beh.get("print")) and syn.get("print") != "violated"
+    facts["str_guarded"] = bool(beh.get("str")) and syn.get("str") != "violated"
+    facts["ok"] = True
+    return facts
+
+
+EXC_CLASSES = [ValueError, TypeError, KeyError, IndexError, ZeroDivisionError, OverflowError, ArithmeticError,
+               LookupError, MemoryError, RecursionError, RuntimeError, NotImplementedError, AttributeError, NameError,
+               AssertionError, StopIteration, OSError, PermissionError, ImportError, EOFError, BufferError, SyntaxError,
+               UnicodeError, Exception]
+
+
+def behavioural_handler_facts(M, notes):
+    """Drive the real `metabolize` / `digest_glucose`; never raises.  -> {"dispatch": bool, "print": bool, "str": bool}"""
+    import contextlib
+    import io
+    out = {"dispatch": False, "print": False, "str": False}
+    try:
+        cls = M.Mitochondria
+        P = M.MetabolicPathway
+        Result = M.MetabolicResult
+
+        class Custom(Exception):
+            pass
+
+        class Unprintable(Exception):
+            def __str__(self):
+                raise RuntimeError("no text")
+
+        def raiser(exc):
+            def f(*a, **k):
+                raise exc
+            return f
+
+        def failure(r):
+            return isinstance(r, Result) and r.success is False
+
+        ok = True
+        excs = [c() if c is not UnicodeError else UnicodeEncodeError("utf-8", "x", 0, 1, "refused") for c in EXC_CLASSES]
+        excs += [Custom(), Custom("m"), Unprintable()]
+        for silent in (True, False):
+            with contextlib.redirect_stdout(io.StringIO()):
+                for exc in excs:
+                    m = cls(silent=silent)
+                    m.SAFE_FUNCTIONS = {"boom": raiser(exc), "v": 1}
+                    m.register_function("boomtool", raiser(exc))
+                    probes = [("boom()", P.GLYCOLYSIS), ("boom()", None), ("boom() < v", None), ("boom()", P.KREBS_CYCLE),
+                              ("v + boom(v, k=v)", P.GLYCOLYSIS), ("boomtool()", None), ("boomtool(v)", P.OXIDATIVE),
+                              ("x" * 9000 + " + boom()", P.GLYCOLYSIS)]
+                    for (src, pw) in probes:
+                        try:
+                            r = m.metabolize(src, pw)
+                            if not failure(r):
+                                ok = False
+                                notes.append(f"probe {src[:20]!r}/{pw}: no failure result for {type(exc).__name__}")
+                        except BaseException as e:  # noqa
+                            ok = False
+                            notes.append(f"probe {src[:20]!r}/{pw}: {type(e).__name__} escaped metabolize")
+                # inputs on which the real evaluators raise by themselves, every pathway, auto and forced
+                m = cls(silent=silent)
+                for src in ["1 +", "", "\x00", "(" * 300, "[" * 3000, "{", "[1,", "zz", "1/0", "f(", "-" * 9000 + "1",
+                            "1" + " + 1" * 1500, "'\ud800'", "10**400 * 1.5", "abs()", "abs.real", "[x for x in y]"]:
+                    for pw in (None, P.GLYCOLYSIS, P.KREBS_CYCLE, P.OXIDATIVE, P.BETA_OXIDATION):
+                        try:
+                            r = m.metabolize(src, pw)
+                            if not isinstance(r, Result):
+                                ok = False
+                        except BaseException as e:  # noqa
+                            ok = False
+                            notes.append(f"input {src[:12]!r}/{pw}: {type(e).__name__} escaped metabolize")
+                        m.repair(100.0)
+        out["dispatch"] = ok
+
+        # a console that refuses to print (lone surrogate on a strict UTF-8 console, closed pipe)
+        class Refusing(io.TextIOBase):
+            def __init__(self, exc):
+                self.exc = exc
+
+            def write(self, s):
+                raise self.exc
+        okp = True
+        for exc in (UnicodeEncodeError("utf-8", "\ud800", 0, 1, "surrogates not allowed"), OSError("closed"), ValueError("I/O")):
+            m = cls(silent=False)
+            for (src, pw) in (("1 + 1", None), ("1 < 2", None), ("1 + 1", P.GLYCOLYSIS), ("[1]", None)):
+                try:
+                    with contextlib.redirect_stdout(Refusing(exc)):
+                        r = m.metabolize(src, pw)
+                    if not failure(r):
+                        okp = False
+                        notes.append("refusing console: metabolize did not report a failure")
+                except BaseException as e:  # noqa
+                    okp = False
+                    notes.append(f"refusing console: {type(e).__name__} escaped metabolize")
+        out["print"] = okp
+
+        # legacy entry point: a value that cannot be rendered as text
+        class NoText:
+            def __str__(self):
+                raise ValueError("no text")
+
+            __repr__ = __str__
+        oks = True
+        with contextlib.redirect_stdout(io.StringIO()):
+            for silent in (True, False):
+                m = cls(silent=silent)
+                m.SAFE_FUNCTIONS = {"v": NoText(), "boom": raiser(TypeError("x"))}
+                for src in ("v", "[v]", "(v, 1)", "boom()", "1 +", "10**5000"):
+                    if src == "10**5000":
+                        m = cls(silent=silent)
+                    try:
+                        r = m.digest_glucose(src)
+                        if not isinstance(r, str):
+                            oks = False
+                    except BaseException as e:  # noqa
+                        oks = False
+                        notes.append(f"digest_glucose({src!r}): {type(e).__name__} escaped")
+        out["str"] = oks
+    except BaseException as e:  # noqa
+        notes.append(f"behavioural handler probe failed: {e!r}")
+    return out
+
+
+def syntactic_handler_facts(notes):
+    """Call-graph analysis of the source.  Per fact: "covered" | "violated" | "not-recognised".  Follows private helpers
+    (`self._x(...)`), tables of method names / bound methods (`getattr(self, name)(...)`, a call of a loop variable) and
+    treats any call it cannot resolve as one that may reach an evaluator."""
+    out = {"dispatch": "not-recognised", "print": "not-recognised", "str": "not-recognised"}
     try:
         src = (REPO / "operon_ai" / "organelles" / "mitochondria.py").read_text()
         tree = ast.parse(src)
         c = [n for n in tree.body if isinstance(n, ast.ClassDef) and n.name == "Mitochondria"][0]
-        fn = [n for n in c.body if isinstance(n, ast.FunctionDef) and n.name == "metabolize"][0]
+        methods = {n.name: n for n in c.body if isinstance(n, (ast.FunctionDef, ast.AsyncFunctionDef))}
+        modfuncs = {n.name: n for n in tree.body if isinstance(n, ast.FunctionDef)}
+        SINKS = {"ast.parse", "json.loads", "ast.literal_eval", "compile", "eval", "exec"}
+
+        def callee(n: ast.Call):
+            return ast.unparse(n.func)
+
+        # which functions can reach an evaluator / tool body (fixed point over the call graph)
+        reaching = set()
+        changed = True
+        while changed:
+            changed = False
+            for name, fn in list(methods.items()) + list(modfuncs.items()):
+                if name in reaching:
+                    continue
+                for n in ast.walk(fn):
+                    if not isinstance(n, ast.Call):
+                        continue
+                    f = callee(n)
+                    dyn = not isinstance(n.func, (ast.Name, ast.Attribute))
+                    if f in SINKS or f.endswith(".execute") or f.endswith(".visit") or dyn \
+                            or (f.startswith("self.") and f[5:] in reaching) or f in reaching \
+                            or f.startswith("getattr("):
+                        reaching.add(name)
+                        changed = True
+                        break
+        reaching.discard("metabolize")
+        reaching.discard("digest_glucose")
 
         def catches_exception(t: ast.Try):
             for h in t.handlers:
-                names = []
                 if h.type is None:
-                    return True
-                for x in (h.type.elts if isinstance(h.type, ast.Tuple) else [h.type]):
-                    names.append(ast.unparse(x))
+                    return not any(isinstance(n, ast.Raise) for s_ in h.body for n in ast.walk(s_))
+                names = [ast.unparse(x) for x in (h.type.elts if isinstance(h.type, ast.Tuple) else [h.type])]
                 if "Exception" in names or "BaseException" in names:
-                    # the handler itself must not re-raise
-                    if not any(isinstance(n, ast.Raise) for s in h.body for n in ast.walk(s)):
+                    if not any(isinstance(n, ast.Raise) for s_ in h.body for n in ast.walk(s_)):
                         return True
             return False
-        protected = set()
-        for t in ast.walk(fn):
-            if isinstance(t, ast.Try) and catches_exception(t):
-                for s in t.body:
-                    for n in ast.walk(s):
-                        protected.add(id(n))
-        prints, dispatch = [], []
-        for n in ast.walk(fn):
-            if isinstance(n, ast.Call):
-                f = ast.unparse(n.func)
-                if f == "print":
-                    prints.append(n)
-                elif f.startswith("self._") and f != "self._detect_pathway":
-                    dispatch.append(n)
-        # legacy entry point: every str(...) conversion in digest_glucose sits inside a catching try
-        facts["str_guarded"] = False
-        try:
-            dg = [n for n in c.body if isinstance(n, ast.FunctionDef) and n.name == "digest_glucose"][0]
+
+        def protected_ids(fn):
             prot = set()
-            for t in ast.walk(dg):
+            for t in ast.walk(fn):
                 if isinstance(t, ast.Try) and catches_exception(t):
-                    for st_ in t.body:
-                        for n in ast.walk(st_):
+                    for s_ in t.body:
+                        for n in ast.walk(s_):
                             prot.add(id(n))
-            convs = [n for n in ast.walk(dg) if (isinstance(n, ast.Call) and ast.unparse(n.func) in ("str", "repr", "format"))
+            return prot
+
+        def may_reach(n: ast.Call):
+            f = callee(n)
+            if not isinstance(n.func, (ast.Name, ast.Attribute)):
+                return True                       # getattr(self, name)(...), table[k](...), (lambda: ...)()
+            if f.startswith("self."):
+                return f[5:] in reaching
+            if isinstance(n.func, ast.Name):
+                if f in reaching:
+                    return True
+                # a local variable that is called (loop variable over a table of bound methods)
+                return f not in modfuncs and f not in dir(__import__("builtins")) and f[:1].islower() and f not in (
+                    "print", "len", "max", "min", "isinstance", "getattr", "str", "type")
+            return f in SINKS or f.endswith(".execute")
+        def elsewhere(f):
+            # protection may live outside the function body (decorator, wrapper, context manager): the lexical analysis
+            # has no opinion then and the behavioural fact decides
+            return bool(f.decorator_list) or not any(isinstance(n, ast.Try) for n in ast.walk(f)) \
+                or any(isinstance(n, (ast.With, ast.AsyncWith)) for n in ast.walk(f))
+        fn = methods.get("metabolize")
+        if fn is not None and not elsewhere(fn):
+            prot = protected_ids(fn)
+            calls = [n for n in ast.walk(fn) if isinstance(n, ast.Call)]
+            risky = [n for n in calls if may_reach(n)]
+            if risky:
+                out["dispatch"] = "covered" if all(id(n) in prot for n in risky) else "violated"
+            prints = [n for n in calls if callee(n) == "print"]
+            out["print"] = "covered" if all(id(n) in prot for n in prints) else "violated"
+        dg = methods.get("digest_glucose")
+        if dg is not None and not elsewhere(dg):
+            prot = protected_ids(dg)
+            convs = [n for n in ast.walk(dg)
+                     if (isinstance(n, ast.Call) and callee(n) in ("str", "repr", "format"))
                      or (isinstance(n, ast.FormattedValue) and "atp" in ast.unparse(n.value))]
-            facts["str_guarded"] = all(id(n) in prot for n in convs)
-        except Exception as e:  # noqa
-            facts["notes"].append(f"parse of digest_glucose failed: {e!r}")
-        facts["print_in_try"] = all(id(n) in protected for n in prints)
-        facts["dispatch_in_try"] = bool(dispatch) and all(id(n) in protected for n in dispatch)
+            out["str"] = "covered" if all(id(n) in prot for n in convs) else "violated"
     except Exception as e:  # noqa
-        facts["notes"].append(f"parse of metabolize failed: {e!r}")
-    facts["ok"] = True
-    return facts
+        notes.append(f"syntactic handler analysis failed: {e!r}")
+    return out
 
 
 def _lean_str(s):
@@ -360,6 +531,8 @@ def render(f) -> str:
     L.append("def dispatchInTry : Bool := " + b(f.get("dispatch_in_try")))
     L.append("/-- digest_glucose: the str(value) conversion sits inside a try ... except Exception -/")
     L.append("def strGuarded : Bool := " + b(f.get("str_guarded")))
+    L.append("-- handler facts: behavioural " + json.dumps(f.get("handler_behavioural")) + "; call-graph cross-check "
+             + json.dumps(f.get("handler_syntactic")))
     L.append("def maxExpressionLength : Option Nat := " +
              ("none" if f.get("max_len") is None else f"some {f['max_len']}"))
     L.append("")
